@@ -489,6 +489,16 @@
         !res.unsafe_vrps_present, res.refresh is None,
 //@ entry
         broadcast use vstd::std_specs::hash::group_hash_axioms, axiom_route_origin_key_model, axiom_router_key_key_model, axiom_asn_key_model;
+//@ fn SnapshotBuilder::into_snapshot_aspa
+//@ spec
+    requires
+        // metric counter does not overflow (u32); not part of C09
+        old(metrics).snapshot.large_aspas < u32::MAX,
+    ensures
+        // C09: a merged ASPA is dropped iff its provider union is too large to encode ...
+        res is None <==> providers.count_spec() > 16380,
+        // ... otherwise it is served for the same customer with exactly the merged providers and its info
+        res matches Some(x) ==> x.0.customer == customer && x.0.providers.asns() == providers.asns() && x.1 == info,
 //@ global
 // C08: a VRP is unsafe iff its prefix shares an address with the rejected
 // resources (of its own family)
